@@ -185,7 +185,7 @@ func schedCase(rng *rand.Rand, w *Writer, suite string, kind string, canonical i
 		appnonce, newaddr := "", uint32(0)
 		var dl []string
 		for _, x := range downs {
-			dl = append(dl, fmt.Sprintf("%s:%d:%x:%d", hx(x.RawMessage), x.Radio.RX1Delay, uint64(x.Gateway.GatewayEUI.ToInt64()), x.Gateway.GatewayClock))
+			dl = append(dl, dlStr(x))
 			if len(x.RawMessage) == 17 && x.RawMessage[0]>>5 == 1 {
 				dec := aesEnc(d.appkey, x.RawMessage[1:])
 				appnonce = hx(dec[0:3])
@@ -296,7 +296,7 @@ func schedCase(rng *rand.Rand, w *Writer, suite string, kind string, canonical i
 	appnonce, newaddr := "", uint32(0)
 	var dl []string
 	for _, x := range downs {
-		dl = append(dl, fmt.Sprintf("%s:%d:%x:%d", hx(x.RawMessage), x.Radio.RX1Delay, uint64(x.Gateway.GatewayEUI.ToInt64()), x.Gateway.GatewayClock))
+		dl = append(dl, dlStr(x))
 		if len(x.RawMessage) == 17 && x.RawMessage[0]>>5 == 1 {
 			dec := aesEnc(d.appkey, x.RawMessage[1:])
 			appnonce = hx(dec[0:3])
@@ -409,7 +409,7 @@ func windowCase(rng *rand.Rand, w *Writer, suite string) {
 		downs, _, _ := world.collect()
 		var dl []string
 		for _, x := range downs {
-			dl = append(dl, fmt.Sprintf("%s:%d:%x:%d", hx(x.RawMessage), x.Radio.RX1Delay, uint64(x.Gateway.GatewayEUI.ToInt64()), x.Gateway.GatewayClock))
+			dl = append(dl, dlStr(x))
 		}
 		sort.Strings(dl)
 		return "D[" + strings.Join(dl, ";") + "] P[] " + h.dumpAll()
@@ -498,7 +498,7 @@ func window2Case(rng *rand.Rand, w *Writer, suite string) {
 	downs, _, _ := world.collect()
 	var dl []string
 	for _, x := range downs {
-		dl = append(dl, fmt.Sprintf("%s:%d:%x:%d", hx(x.RawMessage), x.Radio.RX1Delay, uint64(x.Gateway.GatewayEUI.ToInt64()), x.Gateway.GatewayClock))
+		dl = append(dl, dlStr(x))
 	}
 	sort.Strings(dl)
 	w.Case(suite, []string{fmt.Sprintf("cfg=%d:0", opts.netID), fmt.Sprintf("apps=%x", uint64(a.ToInt64())), "pop=" + strings.Join(pops, ";"),
